@@ -28,6 +28,8 @@ var c13iSigma = []srcSym{
 	{"flushall", []string{"flushall"}},
 	{"MULTI", []string{"MULTI"}},
 	{"EXEC", []string{"exec"}},
+	{"SELECT1", []string{"SELECT", "1"}},
+	{"PING", []string{"PING"}},
 }
 
 type c13iCase struct {
@@ -69,10 +71,15 @@ func c13iRun(t *testing.T, c c13iCase) (string, string) {
 	// the filter lists are still installed: the per-command reference is the rewrite function
 	// applied to that command alone
 	var want []string
+	curDB := 0
 	for _, w := range c.Word {
 		s := c13iSigma[w]
 		name := strings.ToLower(s.Argv[0])
-		if name == "multi" || name == "exec" {
+		if name == "multi" || name == "exec" || name == "ping" {
+			continue
+		}
+		if name == "select" {
+			curDB = 1 // every later command belongs to database 1, whatever was filtered before the SELECT
 			continue
 		}
 		var argv [][]byte
@@ -83,7 +90,7 @@ func c13iRun(t *testing.T, c c13iCase) (string, string) {
 		if reject {
 			continue
 		}
-		l := name
+		l := fmt.Sprintf("db%d %s", curDB, name)
 		for _, a := range out {
 			l += " " + string(a)
 		}
@@ -94,7 +101,7 @@ func c13iRun(t *testing.T, c c13iCase) (string, string) {
 		if syncIsOwn(a) {
 			continue
 		}
-		l := a.Name()
+		l := fmt.Sprintf("db%d %s", a.DB, a.Name())
 		for _, x := range a.Argv[1:] {
 			l += " " + string(x)
 		}
